@@ -1,6 +1,6 @@
 """C16 — PMF integration solves the stated discrete problem; incremental equals batch."""
 import itertools, math
-from cvlib import fbits, tok_val
+from cvlib import fbits, tok_val, bits_to_f
 
 RULE = ("gradient grids built directly (1-3 dimensions, 2-7 bins per dimension, every periodic / non-periodic mix, anisotropic widths, "
         "smoothed and unsmoothed averages with minSamples/fullSamples ramps): (a) 1-D surfaces after random sample arrival; "
@@ -259,6 +259,24 @@ def close(a, b, rel=1e-9, ab=1e-9):
 def oracle(case, out):
     m = dict(case["meta"]); m.update(case.get("aux", {})); kind = m.get("kind")
     viol = []
+    # where the points of the surface sit: point j of every dimension at the lower edge of gradient bin j (gradients are bin averages,
+    # the surface is their cumulative sum), for periodic and non-periodic dimensions alike
+    for i, line in enumerate(case["lines"], 1):
+        t = line.split()
+        if t[0] == "i.new":
+            nd = int(t[1]); nx = [int(x) for x in t[2:2 + nd]]; w = [bits_to_f(x) for x in t[2 + nd:2 + 2 * nd]]; per = [int(x) for x in t[2 + 2 * nd:2 + 3 * nd]]
+            pc = vals(out, i, "pcoord")
+            if pc is None:
+                continue
+            for d in range(nd):
+                lo = -1.25 - 0.5 * d
+                pn = nx[d] if per[d] else nx[d] + 1
+                want = (lo, lo + (pn - 1) * w[d])
+                got = (pc[2 * d], pc[2 * d + 1])
+                if abs(got[0] - want[0]) > 1e-12 * max(1.0, abs(want[0])) or abs(got[1] - want[1]) > 1e-12 * max(1.0, abs(want[1])):
+                    return ["the surface integrated from a gradient grid over [%r, %r) (%d bins of %r, %s dimension %d) reports its first and last points at %r "
+                            "and %r; the edges of the gradient bins they belong to are %r and %r" % (lo, lo + nx[d] * w[d], nx[d], w[d],
+                                                                                                  "periodic" if per[d] else "non-periodic", d, got[0], got[1], want[0], want[1])]
     if kind == "1d":
         ref = m["ref"]; F = vals(out, m["dump"], "F")
         if F is None:
